@@ -29,6 +29,8 @@ SYMBOL_POOLS = [
     ["x[3]", "x[0]", "y"],
     ["x[3]", "x[12]", "theta", "beta"],
     ["x", "x[3]"],          # plain + indexed symbol with the same base name
+    ["x[3]", "x_3", "x[0]", "x_0"],   # indexed symbols next to plain identifiers that look like a flattened index
+    ["y[1]", "y_1", "y1", "theta"],
     ["lambda_", "N", "O", "zeta"],
     ["j", "nan", "inf", "theta"],           # identifiers that numeric-literal parsers also accept
     ["J", "infinity", "NaN", "oo", "zoo"],
@@ -72,6 +74,26 @@ def param_diff(p, q, rng):
         if p != 0 and abs(fq - p) <= abs(p) * 2.0 ** -52:
             return f"param-float-ulp: float {p!r} -> {fq!r} (one unit in the last place)"
         return f"param-number: float {p!r} -> {fq!r}"
+    if isinstance(p, complex):
+        try:
+            if getattr(q, "free_symbols", None):
+                # known finding K6: next to a symbol NAMED I in the same gate, the imaginary unit of a complex literal is
+                # read back as that symbol.  Only exactly this is covered: q with Symbol("I") replaced by the imaginary
+                # unit is p (or p up to the K5 ulp)
+                fs = list(q.free_symbols)
+                if len(fs) == 1 and fs[0].name == "I":
+                    back = complex(q.subs(fs[0], sympy.I))
+                    if all(x == y or (x != 0 and abs(y - x) <= abs(x) * 2.0 ** -52) for x, y in ((p.real, back.real), (p.imag, back.imag))):
+                        return f"param-imaginary-unit-read-as-symbol-I: complex {p!r} -> {q!r} (the gate has a parameter symbol named I)"
+                return f"param-number: complex {p!r} -> expression {q!r}"
+            cq = complex(q)
+        except Exception as e:  # noqa: BLE001
+            return f"param-number: complex {p!r} -> {q!r} ({type(e).__name__})"
+        if cq == p:
+            return None
+        if all(x == y or (x != 0 and abs(y - x) <= abs(x) * 2.0 ** -52) for x, y in ((p.real, cq.real), (p.imag, cq.imag))):
+            return f"param-float-ulp: complex {p!r} -> {cq!r} (one unit in the last place of a component)"
+        return f"param-number: complex {p!r} -> {cq!r}"
     if isinstance(p, sympy.Symbol):
         ok = isinstance(q, sympy.Symbol) and q == p and q.name == p.name
         return None if ok else f"param-symbol: {sympy.srepr(p)} -> {sympy.srepr(q) if isinstance(q, sympy.Basic) else repr(q)}"
@@ -330,7 +352,7 @@ class World:
         "overwrite", "overwrite-shorter", "overwrite-other-kind", "torn-file-load", "semantic-compared", "dict-roundtrip",
         "set-roundtrip", "custom-gate", "wrapper-depth>=3", "indexed-symbol", "sympy-named-symbol", "empty-circuit",
         "idle-qubits", "custom-gate-alt-definition", "numeric-literal-named-symbol", "external-write", "via-handle", "via-bytes", "via-pathlike", "float-param", "exp-wrapper", "pow-wrapper",
-        "positioned-handle-save", "dict-edited-then-serialised-again",
+        "positioned-handle-save", "dict-edited-then-serialised-again", "complex-param",
     ]
 
     # ------------------------------------------------------------ generation
@@ -347,6 +369,14 @@ class World:
             exclude=cfg.get("exclude", ()),
         )
         self._strip_pi_constants(c)
+        if r.random() < 0.12:
+            # Python complex numbers as parameters (a Python number like any other; mostly custom-gate arguments), with
+            # components that need all 17 significant digits
+            plain = [o["gate"] for o in c["ops"] if "gate" in o and "of" not in o["gate"] and o["gate"].get("p")]
+            if plain:
+                g = r.choice(plain)
+                comp = lambda: r.choice([r.uniform(-3, 3), r.uniform(-3, 3), 0.1 + 0.2, 2 / 3, -0.0, 0.0, 1e-20, 1.0, -2.5])  # noqa: E731
+                g["p"][r.randrange(len(g["p"]))] = {"c": [comp(), comp()]}
         if r.random() < 0.3:
             c["cv"] = 1   # same custom gate names, other definitions (definitions are per circuit)
         if r.random() < 0.15:
@@ -531,6 +561,8 @@ class World:
                 for p in g.get("p", []):
                     if isinstance(p, float):
                         ctx.probe("float-param")
+                    if isinstance(p, dict) and "c" in p:
+                        ctx.probe("complex-param")
                     if isinstance(p, dict) and ("sym" in p or "e" in p):
                         names = _names(p.get("sym") or p.get("e"))
                         if any("[" in n for n in names):
